@@ -125,8 +125,8 @@ fn known_gap(layout: &str, spelling: &str) -> Option<&'static str> {
         "hsu" => &["ㄝˋ", "ㄟˋ", "ㄑ˙"],
         "et26" => &["ㄝˋ", "ㄟˋ"],
         "dc26" => &["ㄝ", "ㄝˋ", "ㄥ", "˙", "ˊ", "ˇ", "ˋ"],
-        "hanyu" => &["ㄧㄞˊ", "ㄌㄩㄢˊ", "ㄌㄩㄢˇ", "ㄌㄩㄢˋ"],
-        "thl" | "mps2" => &["ㄧㄞˊ", "ㄈㄨㄥˋ", "ㄐ", "ㄌㄩㄢˊ", "ㄌㄩㄢˇ", "ㄌㄩㄢˋ"],
+        "hanyu" => &["ㄧㄞˊ"],
+        "thl" | "mps2" => &["ㄧㄞˊ", "ㄈㄨㄥˋ", "ㄐ"],
         _ => &[],
     };
     if set.contains(&spelling) {
@@ -150,18 +150,20 @@ struct Reach {
     committed: BTreeMap<u16, Vec<u8>>,
 }
 
-fn check_handover(out: &mut Out, layout: &str, what: &str, s: Syllable, pre: &str, ev: &KeyEvent, finite: bool) {
+/// returns true if the (well-formed) syllable handed over is the empty one: sound at the buffer because the
+/// editor inserts only syllables the dictionary has a word for (checked through a real Editor below)
+fn check_handover(out: &mut Out, layout: &str, what: &str, s: Syllable, pre: &str, ev: &KeyEvent) -> bool {
     if !well_formed(s) {
         out.oracle_fail("C14", "new", &format!(
             "layout {} state {} key {}: {} hands over the malformed syllable code {}",
             layout, pre, ev_str(ev), what, s.to_u16()));
-    } else if s.is_empty() && finite {
-        out.oracle_fail("C14", "new", &format!(
-            "layout {} state {} key {}: {} hands over the empty syllable", layout, pre, ev_str(ev), what));
     }
+    s.is_empty()
 }
 
-fn explore_finite(out: &mut Out, name: &'static str, mk: Mk) -> Reach {
+/// `full`: follow every transition (the state a layout is left in after Commit included); otherwise explore
+/// the way the editor drives a layout (it clears the layout after Commit)
+fn explore_finite(out: &mut Out, name: &'static str, mk: Mk, full: bool) -> Reach {
     let kb = Qwerty;
     let events: Vec<KeyEvent> = CODES
         .iter()
@@ -178,7 +180,7 @@ fn explore_finite(out: &mut Out, name: &'static str, mk: Mk) -> Reach {
     // plain key_press transitions, for the reachability analysis below
     let mut plain: HashMap<(u16, u8), Trans> = HashMap::new();
     let mut pops: HashMap<u16, u16> = HashMap::new();
-    let (mut n_tr, mut n_commit, mut n_fuzzy, mut n_panic) = (0u64, 0u64, 0u64, 0u64);
+    let (mut n_tr, mut n_commit, mut n_fuzzy, mut n_panic, mut n_empty) = (0u64, 0u64, 0u64, 0u64, 0u64);
     while let Some(pre) = queue.pop_front() {
         let mut found: Vec<Box<dyn SyllableEditor>> = vec![];
         {
@@ -202,9 +204,9 @@ fn explore_finite(out: &mut Out, name: &'static str, mk: Mk) -> Reach {
                 match &r {
                     Ok(KeyBehavior::Commit) => {
                         n_commit += 1;
-                        check_handover(out, name, "Commit", e.read(), &pre.to_string(), ev, true);
+                        n_empty += check_handover(out, name, "Commit", e.read(), &pre.to_string(), ev) as u64;
                     }
-                    Ok(KeyBehavior::Fuzzy(s)) => check_handover(out, name, "Fuzzy", *s, &pre.to_string(), ev, true),
+                    Ok(KeyBehavior::Fuzzy(s)) => n_empty += check_handover(out, name, "Fuzzy", *s, &pre.to_string(), ev) as u64,
                     Err(_) => {
                         n_panic += 1;
                         out.oracle_fail("C14", "new", &format!("layout {} state {} key {}: key_press panics", name, pre, ev_str(ev)));
@@ -212,10 +214,10 @@ fn explore_finite(out: &mut Out, name: &'static str, mk: Mk) -> Reach {
                     _ => {}
                 }
                 match &rf {
-                    Ok(KeyBehavior::Commit) => check_handover(out, name, "fuzzy Commit", f.read(), &pre.to_string(), ev, true),
+                    Ok(KeyBehavior::Commit) => n_empty += check_handover(out, name, "fuzzy Commit", f.read(), &pre.to_string(), ev) as u64,
                     Ok(KeyBehavior::Fuzzy(s)) => {
                         n_fuzzy += 1;
-                        check_handover(out, name, "Fuzzy", *s, &pre.to_string(), ev, true);
+                        n_empty += check_handover(out, name, "Fuzzy", *s, &pre.to_string(), ev) as u64;
                     }
                     Err(_) => {
                         n_panic += 1;
@@ -226,10 +228,10 @@ fn explore_finite(out: &mut Out, name: &'static str, mk: Mk) -> Reach {
                 if !ev.modifiers.shift {
                     plain.insert((pre, ev.code as u8), Trans { beh: beh.clone(), post });
                 }
-                if r.is_ok() {
+                if r.is_ok() && (full || !matches!(r, Ok(KeyBehavior::Commit))) {
                     found.push(e);
                 }
-                if rf.is_ok() {
+                if rf.is_ok() && (full || !matches!(rf, Ok(KeyBehavior::Commit))) {
                     found.push(f);
                 }
             }
@@ -264,6 +266,7 @@ fn explore_finite(out: &mut Out, name: &'static str, mk: Mk) -> Reach {
     out.stat(&format!("{}.commits", name), n_commit);
     out.stat(&format!("{}.fuzzy", name), n_fuzzy);
     out.stat(&format!("{}.panics", name), n_panic);
+    out.stat(&format!("{}.empty_syllable_handed_over_at_layout_level", name), n_empty);
 
     // ---- editor-style reachability from the fresh state: plain keys, Backspace, stop at Commit
     let mut committed: BTreeMap<u16, Vec<u8>> = BTreeMap::new();
@@ -388,12 +391,14 @@ fn pin_press(out: &mut Out, v: &str, p: &mut Pinyin, ev: KeyEvent, n_empty_commi
                     if p.read().is_empty() {
                         *n_empty_commit += 1; // F38: dropped by the editor (checked below through a real Editor)
                     }
-                    check_handover(out, v, "Commit", p.read(), &pre, &ev, false);
+                    check_handover(out, v, "Commit", p.read(), &pre, &ev);
                     if !well_formed(p.alt()) {
                         out.oracle_fail("C14", "new", &format!("pinyin {} state {} key {}: malformed alt syllable {}", v, pre, ev_str(&ev), p.alt().to_u16()));
                     }
                 }
-                KeyBehavior::Fuzzy(s) => check_handover(out, v, "Fuzzy", *s, &pre, &ev, false),
+                KeyBehavior::Fuzzy(s) => {
+                    check_handover(out, v, "Fuzzy", *s, &pre, &ev);
+                }
                 _ => {}
             }
             Some(b)
@@ -574,8 +579,11 @@ fn through_editor(out: &mut Out, name: &str, mk: &dyn Fn() -> Box<dyn SyllableEd
     // (a) every witness key list really puts its syllable into the buffer, and the candidate list of that
     //     position contains a character with the wanted reading
     let mut n_ok = 0u64;
+    let mut ed = make_editor(readings, mk(), false);
+    let mut ed_fuzzy = make_editor(readings, mk(), true);
+    let (opts, opts_fuzzy) = (ed.editor_options(), ed_fuzzy.editor_options());
     for (r, (carrier, keys)) in witness {
-        let mut ed = make_editor(readings, mk(), false);
+        ed.clear();
         for k in keys {
             ed.process_keyevent(key_event_of(*k));
         }
@@ -603,7 +611,9 @@ fn through_editor(out: &mut Out, name: &str, mk: &dyn Fn() -> Box<dyn SyllableEd
     let n_lists = if thorough { 20_000 } else { 1_500 };
     let mut n_syl = 0u64;
     for i in 0..n_lists {
-        let mut ed = make_editor(readings, mk(), i % 2 == 1);
+        let ed = if i % 2 == 1 { &mut ed_fuzzy } else { &mut ed };
+        ed.clear();
+        ed.set_editor_options(if i % 2 == 1 { opts_fuzzy } else { opts });
         let n = 4 + rng.below(20);
         let mut keys = vec![];
         for _ in 0..n {
@@ -617,11 +627,11 @@ fn through_editor(out: &mut Out, name: &str, mk: &dyn Fn() -> Box<dyn SyllableEd
             let m = if rng.chance(1, 12) { 1 } else { 0 };
             keys.push(format!("{}{}", code as u8, if m == 1 { "s" } else { "" }));
             ed.process_keyevent(Qwerty.map_with_mod(code, mods(m)));
-            if !check_buffer(out, name, &ed, &keys.join(",")) {
+            if !check_buffer(out, name, ed, &keys.join(",")) {
                 break;
             }
         }
-        n_syl += buffer_syllables(&ed).iter().flatten().count() as u64;
+        n_syl += buffer_syllables(ed).iter().flatten().count() as u64;
     }
     out.stat(&format!("{}.editor_random_lists", name), n_lists);
     out.stat(&format!("{}.editor_random_syllables_in_buffer", name), n_syl);
@@ -667,7 +677,7 @@ fn main() {
 
     // ---------------------------------------------------------------- finite layouts
     for (name, mk) in finite_layouts() {
-        let reach = explore_finite(&mut out, name, mk);
+        let reach = explore_finite(&mut out, name, mk, thorough);
         let e = mk();
         // alt_syllables: every code for the layouts that have a table, every composable code otherwise
         for c in 1..=65535u16 {
